@@ -217,6 +217,126 @@ def family_input(fam, n):
 
 
 # ---------------------------------------------------------------------------
+# patterns built from document data (dynamic taint by differential loading)
+# ---------------------------------------------------------------------------
+
+TAINT_BOMBS = ["(x+x+)+y", "|(x+x+)+y", "(x|x)+y", "|(.*x)*y", "(x+)+"]
+TAINT_RUN = 30
+TAINT_STALL_CPU_S = 4.0
+_ARCH_SWAP = {"x86_64": "aarch64", "aarch64": "x86_64", "ppc64le": "s390x", "s390x": "ppc64le", "i386": "ppc64", "src": "x86_64"}
+
+
+def _tokens(text, limit=70):
+    seen, out = set(), []
+    for t in re.findall(r"[A-Za-z0-9_+~][A-Za-z0-9_.+~]{2,}", text):
+        if t.isdigit() or t in seen:
+            continue
+        seen.add(t)
+        out.append(t)
+    return out[:limit]
+
+
+def _retok(text, tok, new):
+    return re.sub(r"(?<![A-Za-z0-9_.+~])%s(?![A-Za-z0-9_+~])" % re.escape(tok), lambda m: new, text)
+
+
+def taint_docs(pms, repo):
+    """(format, text) documents of every format and age the readers accept, small and valid."""
+    import random
+    from rv import formats, downconvert
+    from rv import fmt_treeinfo as FT
+    rng = random.Random(11)
+    docs = []
+    for fmt in formats.FORMATS:
+        for i in range(3):
+            try:
+                D = formats.gen(fmt, rng, hostile=False)
+                docs.append((fmt, formats.build(pms, fmt, D, i).dumps()))
+                if fmt == "treeinfo":
+                    docs.append((fmt, downconvert.render_ini(downconvert.treeinfo_0_0(D, rng), rng)))
+                    docs.append((fmt, downconvert.render_ini(downconvert.treeinfo(D, "0.3", rng), rng)))
+            except Exception:
+                pass
+    # hand-written: the section kinds a generated tree may lack
+    docs.append(("treeinfo", "[header]\nversion = 1.2\ntype = productmd.treeinfo\n\n[release]\nname = Fedora\nshort = Fedora\nversion = 21\n\n"
+                 "[tree]\narch = x86_64\nplatforms = x86_64,xen\nbuild_timestamp = 1400000000\nvariants = Server\n\n"
+                 "[variant-Server]\nid = Server\nuid = Server\nname = Server\ntype = variant\npackages = Packages\nrepository = .\n\n"
+                 "[images-x86_64]\nkernel = images/pxeboot/vmlinuz\n\n[images-xen]\nkernel = images/pxeboot/vmlinuz\n\n"
+                 "[stage2]\nmainimage = images/install.img\n\n[media]\ndiscnum = 1\ntotaldiscs = 1\n\n"
+                 "[checksums]\nimages/pxeboot/vmlinuz = sha256:%s\n" % ("a" * 64)))
+    docs.append(("treeinfo", "[general]\nfamily = Fedora\nversion = 21\narch = x86_64\nvariant = Server\ntimestamp = 1400000000.5\n"
+                 "packagedir = Packages\nrepository = .\nvariants = Server\n\n[variant-Server]\nid = Server\nuid = Server\nname = Server\n"
+                 "type = variant\npackages = Packages\nrepository = .\n\n[images-x86_64]\nkernel = images/pxeboot/vmlinuz\n\n"
+                 "[images-xen-x86_64]\nkernel = images/pxeboot/vmlinuz\n\n[stage2]\nmainimage = images/install.img\n"))
+    return docs
+
+
+def taint_scan(hv, pms, repo, budget_s=150.0):
+    """Differential loading: a pattern handed to `re` while loading doc' that CONTAINS the replacement token (and was not
+    compiled for doc) is built from document data.  For every such (document, token) the token is replaced by regex bombs
+    and every other token by a run of the bombed atom; a load that then needs more than TAINT_STALL_CPU_S CPU seconds
+    has been stalled by a short document."""
+    from rv import formats
+    t_end = time.time() + budget_s
+    res = {"docs": 0, "tokens": 0, "loads": 0, "tainted": [], "stalls": [], "bomb_loads": 0, "truncated": False}
+
+    def load(fmt, text):
+        hv.window = set()
+        try:
+            formats.new_object(pms, fmt).loads(text)
+        except Stall:
+            raise
+        except Exception:
+            pass
+        w, hv.window = hv.window, None
+        res["loads"] += 1
+        return w
+    for fmt, text in taint_docs(pms, repo):
+        res["docs"] += 1
+        base = load(fmt, text)
+        toks = _tokens(text)
+        for tok in toks:
+            if time.time() > t_end:
+                res["truncated"] = True
+                break
+            res["tokens"] += 1
+            hit = None
+            for new in [_ARCH_SWAP.get(tok), tok + "q", "Zq" + tok[2:]]:
+                if not new or new == tok:
+                    continue
+                w = load(fmt, _retok(text, tok, new))
+                derived = [k for k in w - base if new in k[0]]
+                if derived:
+                    hit = (new, derived)
+                    break
+            if not hit:
+                continue
+            entry = {"format": fmt, "token": tok, "patterns": [k[0] for k in hit[1]][:4]}
+            res["tainted"].append(entry)
+            # bomb the tainting token, pump every other token
+            stalled = False
+            for bomb in TAINT_BOMBS:
+                bombed = _retok(text, tok, bomb)
+                run = "x" * TAINT_RUN
+                for other in [None] + [t for t in toks if t != tok]:
+                    variants = [bombed] if other is None else [_retok(bombed, other, other + run), _retok(bombed, other, run),
+                                                                _retok(bombed, other, other + "-" + run + "!")]
+                    for doc in variants:
+                        res["bomb_loads"] += 1
+                        if guarded(lambda d: load(fmt, d), doc, TAINT_STALL_CPU_S):
+                            hv.window = None
+                            res["stalls"].append({"format": fmt, "token": tok, "bomb": bomb, "pumped": other, "document": doc,
+                                                  "patterns": entry["patterns"], "cpu_s": TAINT_STALL_CPU_S})
+                            stalled = True
+                            break
+                    if stalled or time.time() > t_end:
+                        break
+                if stalled or time.time() > t_end:
+                    break
+    return res
+
+
+# ---------------------------------------------------------------------------
 # harvest
 # ---------------------------------------------------------------------------
 
@@ -278,10 +398,14 @@ def do_harvest(spec, out):
         c2.info
     except Exception:
         pass
+    try:
+        taint = taint_scan(hv, pms, repo)
+    except Exception as e:
+        taint = {"error": "%s: %s" % (type(e).__name__, e)}
     hv.scan_compiled()
     pats = [{"pattern": p, "flags": fl, "where": sorted(w)} for (p, fl), w in sorted(hv.patterns.items())]
     with open(out, "w") as f:
-        json.dump({"events": hv.events, "patterns": pats, "targets": sorted(targets), "stalls": stalls}, f)
+        json.dump({"events": hv.events, "patterns": pats, "targets": sorted(targets), "stalls": stalls, "taint": taint}, f)
     return 0
 
 
@@ -459,6 +583,14 @@ def main(argv):
     mode, spec_path, out = argv[1], argv[2], argv[3]
     with open(spec_path) as f:
         spec = json.load(f)
+    if mode in ("harvest", "prescreen"):
+        # a value-driven blow-up (range expansion, repetition) must end in MemoryError, not in the OOM killer
+        import resource
+        lim = 3 * 1024 ** 3
+        try:
+            resource.setrlimit(resource.RLIMIT_AS, (lim, lim))
+        except (ValueError, OSError):
+            pass
     if mode == "harvest":
         return do_harvest(spec, out)
     if mode == "prescreen":
